@@ -81,8 +81,8 @@ type budget struct {
 }
 
 func budgetFor(cost int, thorough bool) budget {
-	q := [...]budget{{600000, 2}, {60000, 4}, {6000, 8}, {800, 16}}
-	th := [...]budget{{4000000, 8}, {600000, 16}, {60000, 32}, {8000, 48}}
+	q := [...]budget{{200000, 2}, {12000, 4}, {1500, 8}, {150, 8}}
+	th := [...]budget{{2000000, 8}, {300000, 16}, {30000, 32}, {10000, 64}}
 	if cost < 0 || cost > 3 {
 		cost = 3
 	}
